@@ -83,6 +83,23 @@ def _run(ctx, ncases, rec):
       if not np.allclose(inv, applied, atol=tol):
         acc.find(f"inverse() after forward() returns forces differing from applied+xfrc+actuator by {np.abs(inv - applied).max():.3g} (tol {tol:.2g}; {integ}, invdiscrete={disc}{cone})",
                  "inverse.inverse", "fwdinv-discrete" if disc else "fwdinv", xml=xml, qpos=mjd.qpos.tolist(), qvel=mjd.qvel.tolist(), ctrl=mjd.ctrl.tolist())
+      if not disc:
+        # inverse dynamics is a function of (qpos, qvel, qacc) for ANY acceleration, not only the one forward() produced
+        qacc_r = rng.normal(size=mjm.nv) * 3.0
+        ref2 = mujoco.MjData(mjm)
+        ref2.qpos[:], ref2.qvel[:], ref2.ctrl[:], ref2.qfrc_applied[:] = mjd.qpos, mjd.qvel, mjd.ctrl, mjd.qfrc_applied
+        ref2.xfrc_applied[:] = mjd.xfrc_applied
+        ref2.qacc[:] = qacc_r
+        mujoco.mj_inverse(mjm, ref2)
+        d.qacc.assign(qacc_r[None].astype(np.float32))
+        mjw.inverse(m, d)
+        acc.evals += 1
+        inv2 = d.qfrc_inverse.numpy()[0].astype(np.float64)
+        tol2 = 5e-3 * (1 + np.abs(ref2.qfrc_inverse).max())
+        if int(ref2.nefc) == 0 and not np.allclose(inv2, ref2.qfrc_inverse, atol=tol2):
+          acc.find(f"inverse() for an arbitrary qacc differs from mujoco.mj_inverse by {np.abs(inv2 - ref2.qfrc_inverse).max():.3g} (tol {tol2:.2g}; {integ}, njmax={caps['njmax']})",
+                   "inverse.inverse", "inverse-arbitrary-qacc", xml=xml, qpos=mjd.qpos.tolist(), qvel=mjd.qvel.tolist(), qacc=qacc_r.tolist(), njmax=caps["njmax"])
+        acc.hit("arbitrary-qacc" + ("" if int(ref2.nefc) == 0 else "-constrained-skipped"))
       acc.hit(f"{integ}{'-disc' if disc else ''}")
       acc.sample({"integrator": integ, "invdiscrete": disc, "cone": cone.strip(), "nefc": int(d.nefc.numpy()[0])})
 
@@ -95,7 +112,7 @@ def _run(ctx, ncases, rec):
 
 
 RULE = ("random trees with actuators, springs/dampers, applied generalized and Cartesian forces, with and without floor contacts, both cones, Euler/implicitfast, INVDISCRETE on/off; forward() then "
-        "inverse() (for INVDISCRETE on the acceleration the step actually produced); qfrc_inverse vs qfrc_applied + J^T xfrc_applied + qfrc_actuator (MuJoCo's values); distinct = case tuples")
+        "inverse() (for INVDISCRETE on the acceleration the step actually produced); qfrc_inverse vs qfrc_applied + J^T xfrc_applied + qfrc_actuator (MuJoCo's values); for unconstrained states additionally inverse() at a random qacc vs mujoco.mj_inverse; zero capacities (njmax = naconmax = 0) for unconstrained models; distinct = case tuples")
 
 
 def correspondence(ctx):
